@@ -273,9 +273,9 @@ func endpointHealthStatus(svc *model.Service, e v1.Endpoint) model.HealthStatus 
 		return model.Draining
 	}
 
-	// If it is shutting down, mark it as terminating. This occurs regardless of whether it was previously healthy or not.
-	if svc != nil &&
-		(e.Conditions.Terminating == nil || *e.Conditions.Terminating) {
+	// If it is shutting down, mark it as terminating. This occurs regardless of whether it was previously healthy or not,
+	// and regardless of whether the Service is already known: an EndpointSlice may be processed before its Service.
+	if e.Conditions.Terminating == nil || *e.Conditions.Terminating {
 		return model.Terminating
 	}
 
